@@ -81,3 +81,46 @@ for pid, nt, rule_tail, shards in [
         "trusted": PARSE_TRUST,
         "assumptions": ["Parser.pending look-ahead modelled by reading the head of the remaining input"],
     }
+
+
+# ----------------------------------------------------------------------------- printer family
+def print_nontrivial(case, impl):
+    # a container with at least one child
+    return ("[ " in case and "[ ]" != case.split("| ")[-1]) or "{ $" in case
+
+
+PRINT_RULE = (
+    "values: every value of depth <= 2 with <= 2 children per container over nine leaves (strings with quote, LF, "
+    "non-ASCII, non-BMP; numbers with sign/fraction/exponent; duplicate and empty keys) x the three presets x seeded "
+    "custom option records, plus limits straddling the actual one-line width and item count (w-1,w,w+1 x n-1,n,n+1 x "
+    "Width/Item/ItemOrWidth); every numeric field 0..3 (singly and in pairs) around each preset x 4 limit settings x 6 "
+    "probe values; random value x random option record (indent Spaces 0..4 / Tabs 0..2, every Limit variant), every "
+    "fifth with a straddling limit. Non-trivial: the value contains a non-empty container. distinct = distinct case lines."
+)
+
+for pid, fam, tail in [
+    ("C04", "c04", " Observable: printed text, whether Value::parse_str of it equals the original, and agreement of "
+                   "pretty_print/compact_print/inline_print with print_with(preset)."),
+    ("C13", "c13", " Observable: printed text byte for byte; spec column: the reference layout of Spec/Layout.v."),
+]:
+    PROPS[pid] = {
+        "id": pid, "family": fam, "allow_axioms": [],
+        "nshards": {"quick": 16, "thorough": 16},
+        "nontrivial": print_nontrivial,
+        "rule": PRINT_RULE + tail,
+        "trusted": ["fmt::Formatter / Display plumbing of std; NumberBuf Display prints the stored bytes"],
+        "assumptions": ["widths and counts are unbounded N (usize overflow would need a 2^64-character line)"],
+    }
+
+PROPS["C08"] = {
+    "id": "C08", "family": "c08", "allow_axioms": [],
+    "nshards": {"quick": 8, "thorough": 16},
+    "nontrivial": lambda case, impl: len(case) > 6,
+    "rule": "every Unicode scalar value as a one-character string and as a key (all 1,112,064 in thorough runs; all below "
+            "U+0180, every class boundary +-2 and 6,000 seeded samples in quick runs), all small values of depth <= 2, "
+            "and random nested values with strings from controls/quotes/backslashes/U+2028/non-BMP/noncharacters, all "
+            "number classes, duplicate and empty keys. Observable: compact_print, to_string, format!(\"{}\"), String::from; "
+            "spec column: the reference serializer ser_min. distinct = distinct case lines.",
+    "trusted": ["fmt::Formatter / Display plumbing of std"],
+    "assumptions": [],
+}
